@@ -38,10 +38,18 @@ INV = [("C16", "any_weak == g_any")]
 RET = [("C16", "result == g_any")]
 
 
+# checks that flag a key only together with its factorisation: the entry written for THIS key is positive exactly when
+# factors were attached in THIS iteration (a result object carried over from an earlier key would break it)
+FACTORING_ONLY = {"CheckFermat", "CheckHighAndLowBitsEqual", "CheckSmallUpperDifferences", "CheckUnseededRand",
+                  "CheckKeypairDenylist", "CheckBitPatterns", "CheckPermutedBitPatterns"}
+
+
 def single(cls, self_fields=None, requires=(), criterion=None, crit_props="C06", on_att=ON_ATT_PRODUCT + ON_ATT_PROPER,
            body_end=None, loops_extra=None, ref_methods=None, extra=None):
   """Registers the contract of <cls>.Check for a check that judges keys one by one (loop 0 is `for key in artifacts`)."""
   be = list(BODY_END if body_end is None else body_end)
+  if cls in FACTORING_ONLY:
+    be.append(("C01,C04,C05,C16,C17", "g_res == g_attached"))
   if criterion:
     be.append((crit_props, f"g_res == ({criterion})"))
   loops = {0: dict(invariant=list(INV), head=list(HEAD), body_end=be, independent=True)}
@@ -61,7 +69,7 @@ def single(cls, self_fields=None, requires=(), criterion=None, crit_props="C06",
       self_fields=dict(SELF_BASE, **(self_fields or {})),
       requires=REQ_SELF + WELLFORMED + list(requires),
       entry_ghost=list(ENTRY), loops=loops, on_call={SET: list(ON_SET), ATT: list(on_att)},
-      return_hints=list(RET), total=True, props=["C01", "C06", "C16", "C17", "C18"],
+      return_hints=list(RET), total=True, props=["C01", "C04", "C05", "C06", "C16", "C17", "C18"],
       ref_methods=dict(ref_methods or {}))
   if extra:
     ns.update(extra)
@@ -88,7 +96,8 @@ _LHW_BE = [c for c in BODY_END if "g_sev" not in c[1]] + [
     ("C16", "g_sev == (paranoid_pb2.SeverityType.SEVERITY_UNKNOWN if (g_res and not g_attached) else self.severity)")]
 single("CheckLowHammingWeight", on_att=ON_ATT_PRODUCT, body_end=_LHW_BE)
 
-_SEARCH_INV = [("C16", "any_weak == g_any"), ("C01,C16,C18", "not test_result.result"), ("C01,C16,C18", "not g_attached"), ("C16,C18", "g_sets == 0"),
+_SEARCH_INV = [("C16", "any_weak == g_any"), ("C01,C04,C05,C16,C17,C18", "not test_result.result"),
+               ("C01,C04,C05,C16,C17,C18", "not g_attached"), ("C16,C18", "g_sets == 0"),
                ("C16", "test_result.severity == self.severity"), ("C16", "test_result.test_name == self.check_name")]
 single("CheckBitPatterns", self_fields={"_pattern_sizes": "Optional[list[int]]"},
        requires=["self._pattern_sizes is None or forall(j, 0, len(self._pattern_sizes), self._pattern_sizes[j] >= 1)"],
